@@ -71,6 +71,7 @@ class ULPIRegisterWindow(Elaboratable):
         self.ulpi_stop     = Signal()
 
         self.busy          = Signal()
+        self.read_busy     = Signal()
         self.address       = Signal(6)
         self.done          = Signal()
 
@@ -98,6 +99,9 @@ class ULPIRegisterWindow(Elaboratable):
 
             # We're busy whenever we're not IDLE; indicate so.
             m.d.comb += self.busy.eq(~fsm.ongoing('IDLE'))
+
+            # Only while the PHY answers a register read can bus data be mistaken for an RxCmd.
+            m.d.comb += self.read_busy.eq(fsm.ongoing('READ_TURNAROUND') | fsm.ongoing('READ_COMPLETE'))
 
             # IDLE: wait for a request to be made
             with m.State('IDLE'):
@@ -877,7 +881,7 @@ class UTMITranslator(Elaboratable):
 
             # Connect our data inputs to the event decoder.
             # Note that the event decoder is purely passive.
-            rxevent_decoder.register_operation_in_progress.eq(register_window.busy),
+            rxevent_decoder.register_operation_in_progress.eq(register_window.read_busy),
             self.last_rx_command          .eq(rxevent_decoder.last_rx_command),
 
             # Connect our inputs to our transmit translator.
